@@ -10,6 +10,7 @@ import (
 	"os"
 	"path/filepath"
 	"regexp"
+	"sort"
 	"strconv"
 	"strings"
 
@@ -26,7 +27,9 @@ func (w *work) stream(family, detail string, pos int, kinds []kind, input []byte
 		return
 	}
 	for _, k := range kinds {
-		a := artefact{Codec: p.codec, Family: family, Detail: detail, Pos: pos, kind: k}
+		// a "+reencrypted" input is a freshly sealed archive of an edited TAR: it is not a modification of a produced archive
+		// but one any holder of the public key can produce, so it may be accepted when the result is identical
+		a := artefact{Codec: p.codec, Family: family, Detail: detail, Pos: pos, kind: k, valid: strings.HasSuffix(family, "+reencrypted")}
 		if e.skip(a) {
 			continue
 		}
@@ -209,13 +212,18 @@ func (w *work) structural() {
 			structEdit("metrics-rekey:"+name, vm, func(m *retriever.Manifest) bool {
 				g := &m.Metrics.Graphs[0]
 				h := []map[string]int64{g.NodeKindHistogram, g.EdgeKindHistogram, g.InDegreeHistogram, g.OutDegreeHistogram, g.TotalDegreeHistogram, g.EndpointKindHistogram}[hi]
+				var ks []string
 				for k, v := range h {
 					if v > 0 {
-						h[k] = v - 1
-						h["9:tampered!"]++
-						break
+						ks = append(ks, k)
 					}
 				}
+				if len(ks) == 0 {
+					return false
+				}
+				sort.Strings(ks)
+				h[ks[0]]--
+				h["9:tampered!"]++
 				g.Fingerprint = retriever.FingerprintGraphMetrics(*g)
 				return true
 			})
@@ -265,6 +273,12 @@ func (w *work) structural() {
 			w.both("tar-entry-swap", fmt.Sprintf("%d<->%d", i, j), i*100+j, join(es))
 		}
 		w.both("tar-entry-duplicate", fmt.Sprintf("%d", i), i, join(append(append([][]byte(nil), entries...), entries[i])))
+		if len(entries[i]) > 512 { // one byte of the entry's data changed (the manifest digest no longer matches), header intact
+			es := append([][]byte(nil), entries...)
+			es[i] = append([]byte(nil), entries[i]...)
+			es[i][512+(len(es[i])-512)/4] ^= 0x20
+			w.both("tar-entry-data-flip", fmt.Sprintf("%d", i), i, join(es))
+		}
 		w.both("tar-entry-delete", fmt.Sprintf("%d", i), i, join(append(append([][]byte(nil), entries[:i]...), entries[i+1:]...)))
 	}
 	w.both("tar-entry-delete", "all", -1, tail)
@@ -431,7 +445,7 @@ func (w *work) hostileTar() {
 	}
 	var hs []hostile
 	add := func(name string, raw ...[]byte) { hs = append(hs, hostile{name, bytes.Join(raw, nil)}) }
-	for _, n := range []string{"/verif-c20-abs-escape", filepath.Join(e.root, "abs-target"), "../x", "a/../../x", "a/./../..", "graphs/../../x", "C:\\x", "C:/x", "a\\b", "..\\x", " ../x", "../x ", "x/", "", ".", "..", "./", "//x", "evil.txt", "./manifest.json", "graphs/../manifest.json", "manifest.json", "manifest.json/x", "graphs", "graphs/g1", long, "\x00hidden", "nul\x00", ".out.unpack-1.tmp/x"} {
+	for _, n := range []string{"/verif-c20-abs-escape", filepath.Join(e.root, "abs-target"), "../x", "a/../../x", "a/./../..", "graphs/../../x", "C:\\x", "C:/x", "a\\b", "..\\x", " ../x", "../x ", "x/", "", ".", "..", "./", "//x", "../created-outside", "a/../../created-outside", "graphs/g1/../../../created-outside", filepath.Join(e.root, "created-outside"), "evil.txt", "./manifest.json", "graphs/../manifest.json", "manifest.json", "manifest.json/x", "graphs", "graphs/g1", long, "\x00hidden", "nul\x00", ".out.unpack-1.tmp/x"} {
 		add(fmt.Sprintf("regular:%q", n), entry(n, tar.TypeReg, payload, ""))
 	}
 	for _, l := range []string{"../x", filepath.Join(e.root, "x"), "manifest.json", "../linktarget"} {
@@ -476,6 +490,9 @@ func (w *work) hostileTar() {
 
 func (w *work) keys() {
 	e, p := w.e, w.p
+	if e.only != nil && !strings.Contains(e.only.Family, "key") {
+		return
+	}
 	kinds := []kind{unpackStaged, unpackEncDirect, loadArchive}
 	tryKeyFile := func(family, detail string, pos, val int, file []byte) {
 		if !w.mine() {
@@ -497,6 +514,7 @@ func (w *work) keys() {
 			}
 			o := e.exec(k, p.enc, key, false)
 			e.run.Add("distinct_nontrivial", 1)
+			a.valid = same
 			if !same && o.err == nil {
 				a.Target = kindName[k]
 				e.report("archive-opens-with-non-matching-key:"+kindName[k], a, "the archive was opened with a private key that does not belong to the recipient public key")
@@ -566,6 +584,9 @@ func replay(run *core.Run) {
 	defer os.RemoveAll(e.root)
 	e.verb = true
 	e.only = &art
+	if strings.Contains(art.Family, "substitute") {
+		replayValue = art.Val
+	}
 	fmt.Printf("replay: codec=%s target=%s family=%s detail=%s file=%s pos=%d val=%d\n", art.Codec, art.Target, art.Family, art.Detail, art.File, art.Pos, art.Val)
 	p := e.makePristine(art.Codec)
 	e.base = e.outside()
